@@ -67,6 +67,7 @@ type LetDef struct {
 }
 
 type SpecFn struct {
+	Pkg    string // declaring package: identifiers in the body resolve there
 	Name   string
 	Params []string
 	Body   ast.Expr
@@ -342,7 +343,7 @@ func (cs *ContractSet) parseContractSource(pkgPath, filename string, src []byte)
 				bad(err)
 				continue
 			}
-			cs.Specs[name] = &SpecFn{Name: name, Params: params, Body: e, Text: pp}
+			cs.Specs[name] = &SpecFn{Pkg: pkgPath, Name: name, Params: params, Body: e, Text: pp}
 			cur = nil
 		case "global":
 			e, pp, err := parseCExpr(rest)
